@@ -890,7 +890,16 @@ class Interp:
             items = self.iterate(val)
             star = [i for i, t in enumerate(target.elts) if isinstance(t, ast.Starred)]
             if star:
-                raise OutsideFragment("starred unpacking")
+                k = star[0]
+                after = len(target.elts) - k - 1
+                if len(items) < k + after:
+                    raise OutsideFragment("not enough values for starred unpacking")
+                for t, v in zip(target.elts[:k], items[:k]):
+                    self.assign(t, v, env)
+                self.assign(target.elts[k].value, list(items[k:len(items) - after]), env)
+                for t, v in zip(target.elts[k + 1:], items[len(items) - after:]):
+                    self.assign(t, v, env)
+                return
             if len(items) != len(target.elts):
                 raise OutsideFragment(f"unpacking {len(items)} values into {len(target.elts)} targets")
             for t, v in zip(target.elts, items):
